@@ -48,7 +48,13 @@ type cliResult struct {
 }
 
 // cliEnv is a scratch HOME / cache / tmp directory for one history.
-type cliEnv struct{ dir string }
+type cliEnv struct {
+	dir string
+	sin int // how standard input is handed over: 0 a pipe, 1 a regular file, 2 a regular file whose first line the caller has already consumed
+}
+
+// withStdin returns the environment with another way of handing over standard input.
+func (e cliEnv) withStdin(mode int) cliEnv { e.sin = mode; return e }
 
 func newCliEnv() cliEnv {
 	base := filepath.Join(outDir(), "cli-env")
@@ -60,7 +66,7 @@ func newCliEnv() cliEnv {
 	for _, sub := range []string{"cache", "tmp", "out"} {
 		os.MkdirAll(filepath.Join(d, sub), 0o755)
 	}
-	return cliEnv{d}
+	return cliEnv{dir: d}
 }
 
 func (e cliEnv) remove() { os.RemoveAll(e.dir) }
@@ -90,6 +96,27 @@ func (e cliEnv) run(args []string, stdin []byte, outfile bool, exts ...string) c
 	}
 	cmd.Dir = e.dir
 	cmd.Stdin = bytes.NewReader(stdin)
+	if e.sin > 0 {
+		prefix := ""
+		if e.sin == 2 {
+			prefix = "a line the caller has read from the same descriptor before it started gts\n"
+		}
+		os.MkdirAll(filepath.Join(e.dir, "in"), 0o755)
+		path := filepath.Join(e.dir, "in", fmt.Sprintf("stdin%d", time.Now().UnixNano()))
+		if err := os.WriteFile(path, append([]byte(prefix), stdin...), 0o644); err != nil {
+			panic(err)
+		}
+		f, err := os.Open(path)
+		if err != nil {
+			panic(err)
+		}
+		defer os.Remove(path)
+		defer f.Close()
+		if _, err := f.Seek(int64(len(prefix)), 0); err != nil {
+			panic(err)
+		}
+		cmd.Stdin = f
+	}
 	var so, se bytes.Buffer
 	cmd.Stdout, cmd.Stderr = &so, &se
 	err := cmd.Run()
